@@ -757,28 +757,52 @@ func c06R2(c *eng.Ctx, iface *types.Interface, impls []c06Impl) {
 					if len(a) != 2 {
 						continue
 					}
-					if z, isK := eng.IntConst(a[1]); isK && z == 0 {
-						continue // the max-in-flight form Resize(max, 0) belongs to C05
-					}
 					if fn != sync && !c.W.OwnedBy(fn, sync) {
 						continue // a helper shared with other callers: not (only) Sync's resize
 					}
-					k++
-					ok, why := c06CheckPair(c, fn, iface, a[0], a[1])
-					// the pair must be read from Sync's own schema parameter
-					if ok {
-						for _, x := range a {
-							ups := c.W.AccessPathsUp(c06StripConv(x))
-							if len(sync.Params) < 2 || len(ups) == 0 {
-								ok, why = false, "the resized limits are not read from the schema handed to Sync"
-							}
-							for _, up := range ups {
-								if len(sync.Params) < 2 || up.Root != ssa.Value(sync.Params[1]) {
-									ok, why = false, "the resized limits are not read from the schema handed to Sync"
+					// The two arguments are judged together, per joint alternative: when the
+					// max-in-flight and the token-bucket branch share one Resize call the pair comes
+					// from a helper returning (size, burst, …) or from variables assigned in branches;
+					// every alternative is either the max-in-flight form (burst constant 0, C05) or a
+					// (QPS, Burst) pair of the local token bucket of Sync's own schema.
+					tb := 0
+					ok, why := true, "(QPS, Burst) of the local token bucket, in that order"
+					for _, cs := range eng.ExpandCases([]ssa.Value{a[0], a[1]}, nil, eng.LiftDepth) {
+						if z, isK := eng.IntConst(c06StripConv(cs.Vals[1])); isK && z == 0 {
+							continue // the max-in-flight form Resize(max, 0) belongs to C05
+						}
+						tb++
+						at := fn
+						if in, isIn := c06StripConv(cs.Vals[0]).(ssa.Instruction); isIn && in.Parent() != nil {
+							at = in.Parent()
+						}
+						if o2, w2 := c06CheckPair(c, at, iface, cs.Vals[0], cs.Vals[1]); !o2 {
+							ok, why = false, w2
+							continue
+						}
+						// the pair must be read from Sync's own schema parameter
+						for i, x := range cs.Vals {
+							root, _, _ := cs.Frames[i].AccessPathIn(c06StripConv(x))
+							good := len(sync.Params) >= 2 && root == ssa.Value(sync.Params[1])
+							if !good && len(sync.Params) >= 2 {
+								// a helper with several call sites: every site must hand over Sync's schema
+								ups := c.W.AccessPathsUp(c06StripConv(x))
+								good = len(ups) > 0
+								for _, up := range ups {
+									if up.Root != ssa.Value(sync.Params[1]) {
+										good = false
+									}
 								}
+							}
+							if !good {
+								ok, why = false, "the resized limits are not read from the schema handed to Sync"
 							}
 						}
 					}
+					if tb == 0 {
+						continue
+					}
+					k++
 					c.Check("R2", sync, fmt.Sprintf("Resize(QPS, Burst)#%d", k), ci.Pos(), ok, why)
 				}
 			}
@@ -1080,7 +1104,9 @@ func (d *c06Diff) fact() *boolFact {
 func c06SyncUnchanged(c *eng.Ctx, iface *types.Interface, named *types.Named, sync *ssa.Function) {
 	tn := eng.TypeName(named)
 	param := sync.Params[1]
-	sl := c.Slicer()
+	// the comparison may sit in Sync or in a helper its body was spread over (a predicate such as
+	// `f.unchanged(schema)`): operands are traced through the helper's parameters
+	sl := c.Slicer().WithUp()
 	fromParam := func(v ssa.Value) bool {
 		return sl.DerivesFrom(v, func(x ssa.Value) bool { return x == ssa.Value(param) })
 	}
@@ -1095,22 +1121,29 @@ func c06SyncUnchanged(c *eng.Ctx, iface *types.Interface, named *types.Named, sy
 			return false
 		})
 	}
+	var region []*ssa.Function
+	for _, g := range c.W.Region(sync) {
+		if g == sync || c.W.OwnedBy(g, sync) {
+			region = append(region, g)
+		}
+	}
 	var eq *ssa.Call
-	for _, ci := range eng.Calls(sync) {
-		call, ok := ci.(*ssa.Call)
-		if !ok {
-			continue
-		}
-		if !eng.IsCall(call, "reflect.DeepEqual", "(*k8s.io/apimachinery/third_party/forked/golang/reflect.Equalities).DeepEqual", "(k8s.io/apimachinery/third_party/forked/golang/reflect.Equalities).DeepEqual") {
-			continue
-		}
-		a := eng.Args(call)
-		if len(a) != 2 {
-			continue
-		}
-		if (fromParam(a[0]) && fromMem(a[1])) || (fromParam(a[1]) && fromMem(a[0])) {
-			eq = call
-			break
+	for _, g := range region {
+		for _, ci := range eng.Calls(g) {
+			call, ok := ci.(*ssa.Call)
+			if !ok || eq != nil {
+				continue
+			}
+			if !eng.IsCall(call, "reflect.DeepEqual", "(*k8s.io/apimachinery/third_party/forked/golang/reflect.Equalities).DeepEqual", "(k8s.io/apimachinery/third_party/forked/golang/reflect.Equalities).DeepEqual") {
+				continue
+			}
+			a := eng.Args(call)
+			if len(a) != 2 {
+				continue
+			}
+			if (fromParam(a[0]) && fromMem(a[1])) || (fromParam(a[1]) && fromMem(a[0])) {
+				eq = call
+			}
 		}
 	}
 	if eq == nil {
@@ -1138,30 +1171,57 @@ func c06SyncUnchanged(c *eng.Ctx, iface *types.Interface, named *types.Named, sy
 	}
 	// a call of a helper in which an effect is reachable is an effect
 	isEffect := eng.LiftMay(isEffect0)
-	brs := eng.BranchesOn(eq)
-	if len(brs) == 0 {
+	// "the comparison answered equal" / "… unequal" as facts: decided through negation, named
+	// conditions, `a || b` chains and predicate helpers returning the comparison
+	answered := func(want bool) *boolFact {
+		return &boolFact{w: c.W, atom: func(r eng.Rel, _ *callBind) bool {
+			if r.X != ssa.Value(eq) {
+				return false
+			}
+			return (r.Op == token.EQL && eng.IsBoolConst(r.Y, want)) || (r.Op == token.NEQ && eng.IsBoolConst(r.Y, !want))
+		}}
+	}
+	equal, unequal := answered(true), answered(false)
+	edges := 0
+	ok := true
+	for _, g := range region {
+		for _, b := range g.Blocks {
+			if len(b.Instrs) == 0 {
+				continue
+			}
+			if _, isIf := b.Instrs[len(b.Instrs)-1].(*ssa.If); !isIf {
+				continue
+			}
+			for si := range b.Succs {
+				if !equal.edge(b, si) {
+					continue
+				}
+				edges++
+				if eng.ReachFromBlock(b.Succs[si], eng.PathQuery{Target: isEffect}) != nil {
+					ok = false
+				}
+			}
+		}
+	}
+	if edges == 0 {
 		c.Fail("R3", sync, "unchanged configuration ⇒ no effect", eq.Pos(), "the result of the comparison is not branched on")
 		return
-	}
-	ok := true
-	for _, br := range brs {
-		if eng.ReachFromBlock(br.OnTrue, eng.PathQuery{Target: isEffect}) != nil {
-			ok = false
-		}
 	}
 	c.Check("R3", sync, "unchanged configuration ⇒ no effect", eq.Pos(), ok, "on the edge where the new configuration equals the remembered one no Resize, limiter construction or wrapper state change may be reached")
 	// every effect is on the changed edge
 	dom := true
 	n := 0
-	eng.Instrs(sync, func(ins ssa.Instruction) {
-		if !isEffect(ins) {
-			return
-		}
-		n++
-		if !eng.GuardedByBool(ins, func(v ssa.Value) bool { return v == ssa.Value(eq) }, false) {
-			dom = false
-		}
-	})
+	for _, g := range region {
+		eng.Instrs(g, func(ins ssa.Instruction) {
+			if !isEffect0(ins) {
+				return
+			}
+			n++
+			if !eng.GuardedByBool(ins, func(v ssa.Value) bool { return v == ssa.Value(eq) }, false) && !unequal.guardedByFact(ins, eng.LiftDepth) {
+				dom = false
+			}
+		})
+	}
 	c.Check("R3", sync, "effects only after a detected change", eq.Pos(), dom && n > 0, fmt.Sprintf("%d limiter effects in Sync; each must be control-dependent on the configuration having changed", n))
 }
 
